@@ -348,13 +348,13 @@ pub fn run(ctx: &mut Ctx) {
         check(ctx, &Case { engine: &engine, refv: Some(&env.bundled_ref), labels: vec![], lines, descr: "bundled".into(), cond, wellformed: true });
     });
 
-    let n = ctx.n(48, 4000);
+    let n = ctx.n(200, 4000);
     ctx.run_cases("bundled", n, false, |ctx, rng, _| {
         let max = if q { 8 } else { 40 };
         run_on_engine(ctx, &env, rng, &bundled, Some(&env.bundled_ref), "bundled", max);
     });
 
-    let n = ctx.n(8, 400);
+    let n = ctx.n(24, 400);
     ctx.run_cases("perturbed", n, false, |ctx, rng, _| {
         let strength = rng.uniform(0.05, 0.5);
         let bytes = voicegen::perturb(&env.bundled_bytes, rng, strength);
@@ -397,7 +397,7 @@ pub fn run(ctx: &mut Ctx) {
         }
     });
 
-    let n = ctx.n(120, 6000);
+    let n = ctx.n(400, 6000);
     ctx.run_cases("synthetic", n, false, |ctx, rng, _| {
         let o = VoiceOpts::random(rng);
         match load_synthetic(&env, &o, rng) {
@@ -412,7 +412,7 @@ pub fn run(ctx: &mut Ctx) {
     });
 
     // hostile corners
-    let n = ctx.n(80, 3000);
+    let n = ctx.n(320, 3000);
     ctx.run_cases("corners", n, false, |ctx, rng, idx| {
         let mut o = VoiceOpts::random(rng);
         let kind = idx % 6;
@@ -477,7 +477,7 @@ pub fn run(ctx: &mut Ctx) {
     });
 
     // structurally random labels: no panic + frame exactness only
-    let n = ctx.n(60, 3000);
+    let n = ctx.n(200, 3000);
     ctx.run_cases("randlabels", n, false, |ctx, rng, idx| {
         let labels: Vec<Label> = (0..rng.range(1, 6)).map(|_| random_label(rng)).collect();
         if idx % 3 == 0 {
